@@ -12,6 +12,7 @@ from .ref import KV, Poly, basis_polys, kv_from_list, divnz
 
 def coords(P):
     """list of points -> list of coordinate lists (scalars: one coordinate)"""
+    P = [pt.item() if isinstance(pt, np.ndarray) and pt.ndim == 0 else pt for pt in P]
     first = P[0]
     if isinstance(first, (np.ndarray, list, tuple)):
         dim = len(first)
